@@ -2,7 +2,7 @@
    platform gating for every Cpu / processor_architecture; the adjusted-address computation; the
    gating of BOTH passes on "null pointer plus offset" for an arbitrary instruction analysis;
    operand evaluation (null base register). *)
-From Coq Require Import Lia.
+From Coq Require Import Lia Sorting.Sorted.
 From RM Require Import C08.Proofs C19.Model C19.Proofs C19.Pipeline.
 Open Scope Z_scope.
 
@@ -566,4 +566,88 @@ Proof.
     eexists. split; [apply (flips_loop_complete _ lo a reg br ctx rs op j); [lia|exact Hq]|]. split; reflexivity.
   - destruct (br_bounds br) as [lo hi] eqn:Eb. cbn [fst snd] in Hj.
     eexists. split; [apply (flips_loop_complete _ lo a reg br ctx rs op j); [lia|exact Hq]|]. split; reflexivity.
+Qed.
+
+(* ------------------------------------------------------------ get_registers: a set ordered by register name *)
+Definition rank_lt (a b : Z) : Prop := name_rank a < name_rank b.
+
+Lemma insert_reg_forall id l (P : Z -> Prop) : P id -> Forall P l -> Forall P (insert_reg id l).
+Proof.
+  induction l as [|h t IH]; cbn [insert_reg]; intros Hp Hf; [constructor; [exact Hp|constructor]|].
+  inversion Hf; subst. destruct (name_rank id <? name_rank h); [constructor; assumption|].
+  destruct (name_rank id =? name_rank h); [exact Hf|]. constructor; [assumption|apply IH; assumption].
+Qed.
+
+Lemma insert_reg_sorted id l : StronglySorted rank_lt l -> StronglySorted rank_lt (insert_reg id l).
+Proof.
+  induction l as [|h t IH]; cbn [insert_reg]; intros Hs; [constructor; constructor|].
+  inversion Hs as [|? ? Hst Hf]; subst.
+  destruct (name_rank id <? name_rank h) eqn:E1.
+  - constructor; [exact Hs|]. constructor; [unfold rank_lt; lia|].
+    eapply Forall_impl; [|exact Hf]. unfold rank_lt. intros x Hx. lia.
+  - destruct (name_rank id =? name_rank h) eqn:E2; [exact Hs|].
+    constructor; [apply IH; exact Hst|]. apply insert_reg_forall; [unfold rank_lt; lia|exact Hf].
+Qed.
+
+Lemma insert_reg_keeps id l x : In x l -> In x (insert_reg id l).
+Proof.
+  induction l as [|h t IH]; cbn [insert_reg]; intros H; [destruct H|].
+  destruct (name_rank id <? name_rank h); [right; exact H|].
+  destruct (name_rank id =? name_rank h); [exact H|].
+  destruct H as [H|H]; [left; exact H|right; apply IH; exact H].
+Qed.
+
+Lemma insert_reg_has id l : exists id', In id' (insert_reg id l) /\ name_rank id' = name_rank id.
+Proof.
+  induction l as [|h t [id' [Hin Hr]]]; cbn [insert_reg]; [exists id; split; [left; reflexivity|reflexivity]|].
+  destruct (name_rank id <? name_rank h); [exists id; split; [left; reflexivity|reflexivity]|].
+  destruct (name_rank id =? name_rank h) eqn:E; [exists h; split; [left; reflexivity|lia]|].
+  exists id'. split; [right; exact Hin|exact Hr].
+Qed.
+
+Lemma fold_insert_sorted ids : forall acc, StronglySorted rank_lt acc ->
+  StronglySorted rank_lt (fold_left (fun acc id => insert_reg id acc) ids acc).
+Proof. induction ids as [|i t IH]; intros acc H; cbn [fold_left]; [exact H|]. apply IH. apply insert_reg_sorted. exact H. Qed.
+
+Lemma fold_insert_keeps ids : forall acc x, In x acc -> In x (fold_left (fun acc id => insert_reg id acc) ids acc).
+Proof. induction ids as [|i t IH]; intros acc x H; cbn [fold_left]; [exact H|]. apply IH. apply insert_reg_keeps. exact H. Qed.
+
+Lemma fold_insert_has ids : forall acc id, In id ids ->
+  exists id', In id' (fold_left (fun acc id => insert_reg id acc) ids acc) /\ name_rank id' = name_rank id.
+Proof.
+  induction ids as [|i t IH]; intros acc id H; [destruct H|]. cbn [fold_left]. destruct H as [->|H].
+  - destruct (insert_reg_has id acc) as [id' [Hin Hr]]. exists id'. split; [apply fold_insert_keeps; exact Hin|exact Hr].
+  - apply IH. exact H.
+Qed.
+
+Lemma name_rank_inj a b : 0 <= a <= 16 -> 0 <= b <= 16 -> name_rank a = name_rank b -> a = b.
+Proof.
+  intros Ha Hb.
+  assert (Ha' : a = 0 \/ a = 1 \/ a = 2 \/ a = 3 \/ a = 4 \/ a = 5 \/ a = 6 \/ a = 7 \/ a = 8 \/ a = 9 \/ a = 10 \/
+                a = 11 \/ a = 12 \/ a = 13 \/ a = 14 \/ a = 15 \/ a = 16) by lia.
+  assert (Hb' : b = 0 \/ b = 1 \/ b = 2 \/ b = 3 \/ b = 4 \/ b = 5 \/ b = 6 \/ b = 7 \/ b = 8 \/ b = 9 \/ b = 10 \/
+                b = 11 \/ b = 12 \/ b = 13 \/ b = 14 \/ b = 15 \/ b = 16) by lia.
+  clear Ha Hb.
+  repeat (destruct Ha' as [->|Ha']); try subst a;
+    repeat (destruct Hb' as [->|Hb']); try subst b; vm_compute; intros H; first [reflexivity | discriminate H].
+Qed.
+
+(* get_registers: strictly increasing in the name order (hence duplicate-free), contains exactly the base / index
+   registers of the memory operands (for the 17 registers of the amd64 context) *)
+Lemma instr_regs_spec ops :
+  StronglySorted rank_lt (instr_regs ops) /\
+  (forall id, In id (instr_regs ops) -> exists m, In m ops /\ (mo_base m = Some id \/ mo_index m = Some id)) /\
+  (forall m id, In m ops -> (mo_base m = Some id \/ mo_index m = Some id) -> 0 <= id <= 16 ->
+                (forall m' id', In m' ops -> (mo_base m' = Some id' \/ mo_index m' = Some id') -> 0 <= id' <= 16) ->
+                In id (instr_regs ops)).
+Proof.
+  split; [apply fold_insert_sorted; constructor|]. split; [apply instr_regs_sound|].
+  intros m id Hm Hid Hr Hall.
+  assert (Hin : In id (flat_map operand_regs ops)).
+  { apply in_flat_map. exists m. split; [exact Hm|]. unfold operand_regs.
+    destruct Hid as [Hb|Hi]; [rewrite Hb; apply in_or_app; left; left; reflexivity|rewrite Hi; apply in_or_app; right; left; reflexivity]. }
+  destruct (fold_insert_has _ [] id Hin) as [id' [Hin' Hrk]].
+  assert (Hr' : 0 <= id' <= 16).
+  { destruct (instr_regs_sound ops id' Hin') as [m' [Hm' Hid']]. eapply Hall; eassumption. }
+  rewrite <- (name_rank_inj id' id Hr' Hr Hrk). exact Hin'.
 Qed.
